@@ -22,7 +22,7 @@ def outR : IOut → R
   | .oob => .panicked
   | .ub => .ub
 
-def quiet (n : Nat) : Ctx := ⟨n, none, fun _ => false, fun _ => none, fun _ => .done, (0, none)⟩
+def quiet (n : Nat) : Ctx := ⟨n, none, fun _ => false, fun _ => none, fun _ => .done, (0, none), {}⟩
 
 theorem panics_eq (ids : List Nat) (bad : Option Nat) : GA.Body.panics ids bad = GA.IterOwn.panics ids bad := by
   cases bad <;> rfl
@@ -253,11 +253,11 @@ def callsSpec (fpan : Nat → Bool) : List Nat → Nat → List Ev × Bool × Na
 theorem fold_loop (c : Ctx) (slots : List Nat) (ib : Nat) (e0 e1 : V) (out : O) (ho fg : Bool) :
     ∀ (r i k : Nat), i + r ≤ slots.length → i + r < word →
       loopOver (loopBody c (loopBodyOf Gen.Body.fold.body) [e0, e1]) ((List.range' i r).map (V.slot .self))
-          ⟨⟨slots, i, ib, 0, []⟩, out, ho, k, fg, 0, false⟩
+          ⟨⟨slots, i, ib, 0, []⟩, out, ho, k, fg, 0, false, {}⟩
         = ((callsSpec c.fpan ((slots.drop i).take r) k).1,
            (if (callsSpec c.fpan ((slots.drop i).take r) k).2.1 then R.ret .unit else R.panicked),
            ⟨⟨slots, i + (callsSpec c.fpan ((slots.drop i).take r) k).2.2, ib, 0, []⟩, out, ho,
-             k + (callsSpec c.fpan ((slots.drop i).take r) k).2.2, fg, 0, false⟩) := by
+             k + (callsSpec c.fpan ((slots.drop i).take r) k).2.2, fg, 0, false, {}⟩) := by
   intro r
   induction r with
   | zero => intro i k _ _; simp [loopOver, callsSpec]
@@ -319,11 +319,11 @@ theorem take_succ_drop (l : List Nat) (i r : Nat) (h : i + r < l.length) :
 theorem rfold_loop (c : Ctx) (slots : List Nat) (fr : Nat) (e0 e1 : V) (out : O) (ho fg : Bool) (i : Nat) :
     ∀ (r k : Nat), i + r ≤ slots.length →
       loopOver (loopBody c (loopBodyOf Gen.Body.rfold.body) [e0, e1]) (((List.range' i r).map (V.slot .self)).reverse)
-          ⟨⟨slots, fr, i + r, 0, []⟩, out, ho, k, fg, 0, false⟩
+          ⟨⟨slots, fr, i + r, 0, []⟩, out, ho, k, fg, 0, false, {}⟩
         = ((callsSpec c.fpan ((slots.drop i).take r).reverse k).1,
            (if (callsSpec c.fpan ((slots.drop i).take r).reverse k).2.1 then R.ret .unit else R.panicked),
            ⟨⟨slots, fr, i + r - (callsSpec c.fpan ((slots.drop i).take r).reverse k).2.2, 0, []⟩, out, ho,
-             k + (callsSpec c.fpan ((slots.drop i).take r).reverse k).2.2, fg, 0, false⟩) := by
+             k + (callsSpec c.fpan ((slots.drop i).take r).reverse k).2.2, fg, 0, false, {}⟩) := by
   intro r
   induction r with
   | zero => intro k _; simp [loopOver, callsSpec]
@@ -430,13 +430,13 @@ theorem setMany_eq (ys : List Nat) : ∀ (l : List Nat) (j : Nat), j + ys.length
 theorem clone_loop (c : Ctx) (self : O) (fg : Bool) :
     ∀ (r j i k : Nat) (outSlots : List Nat), i + r ≤ self.slots.length → j + r ≤ outSlots.length → j + r < word →
       loopOver (zipBody c (loopBodyOf Gen.Body.clone.body) []) (pairsFrom j i r)
-          ⟨self, ⟨outSlots, 0, j, 0, []⟩, true, k, fg, 0, false⟩
+          ⟨self, ⟨outSlots, 0, j, 0, []⟩, true, k, fg, 0, false, {}⟩
         = ((cloneCalls c.cl ((self.slots.drop i).take r) k).1,
            (if (cloneCalls c.cl ((self.slots.drop i).take r) k).2.1 then R.ret .unit else R.panicked),
            ⟨self, ⟨setMany outSlots j (cloneCalls c.cl ((self.slots.drop i).take r) k).2.2, 0,
                j + (cloneCalls c.cl ((self.slots.drop i).take r) k).2.2.length, 0, []⟩, true,
              k + (cloneCalls c.cl ((self.slots.drop i).take r) k).2.2.length
-               + (if (cloneCalls c.cl ((self.slots.drop i).take r) k).2.1 then 0 else 1), fg, 0, false⟩) := by
+               + (if (cloneCalls c.cl ((self.slots.drop i).take r) k).2.1 then 0 else 1), fg, 0, false, {}⟩) := by
   intro r
   induction r with
   | zero => intro j i k o _ _ _; simp [pairsFrom, loopOver, cloneCalls, setMany]
